@@ -176,6 +176,7 @@ def main(argv):
             support = list(mod.support(rng, tier))
         except Exception as e:
             support = [('support_raised', False, traceback.format_exc()[-800:])]
+        failed_support = []
         for name, ok, detail in support:
             if not ok:
                 kid = detail.get('kf') if isinstance(detail, dict) else None
@@ -184,10 +185,12 @@ def main(argv):
                         known_seen[kid] = -1
                         lines.append(f"KNOWN-FINDING: property={pid} {kid}: {known[kid]['what']}")
                     continue
-                path = core.write_replay(pid, dict(property=pid, supporting_test=name, detail=detail,
-                                                   seed=seed, tier=tier))
-                lines.append(f'VIOLATION property={pid} replay={path}')
-                nviol += 1
+                failed_support.append(dict(name=name, detail=detail))
+        if failed_support:
+            path = core.write_replay(pid, dict(property=pid, failed_supporting_tests=failed_support[:20],
+                                               n_failed=len(failed_support), seed=seed, tier=tier))
+            lines.append(f'VIOLATION property={pid} replay={path}')
+            nviol += len(failed_support)
 
     # 5. evidence ------------------------------------------------------------------------
     distinct = {}
